@@ -50,12 +50,15 @@ func (o op) String() string {
 		return fmt.Sprintf("put %d %d %d", o.k, o.vid, o.sz)
 	case "get", "del":
 		return fmt.Sprintf("%s %d", o.kind, o.k)
-	case "psize", "plen":
+	case "psize", "plen", "pget":
 		return o.kind
 	default:
 		return fmt.Sprintf("%s %d", o.kind, o.vid)
 	}
 }
+
+// absentKey is never stored by any generator: looking it up changes nothing.
+const absentKey = 1 << 30
 
 type world struct {
 	c    *lru.Cache[int, *val]
@@ -98,9 +101,10 @@ func (w *world) exec(o op) string {
 			return "no"
 		}
 		return "v " + strconv.Itoa(v.id)
-	case "psize", "plen":
-		// Size()/Len() probed from a concurrent caller: they must not return
-		// while another call is inside its critical section.
+	case "psize", "plen", "pget":
+		// Size()/Len()/Get(of a key that is never stored) probed from a concurrent
+		// caller: they must not return while another call is inside its critical
+		// section (a lookup that bypasses a busy mutex reads, and orders, stale state).
 		// "held": some other caller is between taking the mutex and returning
 		// (the scheduler's own bookkeeping; it resumed us, so the read is ordered)
 		held := false
@@ -109,10 +113,17 @@ func (w *world) exec(o op) string {
 		}
 		ch := make(chan uint64, 1)
 		go func() {
-			if o.kind == "psize" {
+			switch o.kind {
+			case "psize":
 				ch <- w.c.Size()
-			} else {
+			case "plen":
 				ch <- uint64(w.c.Len())
+			default:
+				if _, err := w.c.Get(absentKey); err == nil {
+					ch <- 1
+				} else {
+					ch <- 0
+				}
 			}
 		}()
 		wait := time.Second
@@ -512,7 +523,7 @@ func ConcExhaustive(t *tr.W, r *rand.Rand, nprogs int, maxSched int) {
 			for j := 0; j < nops; j++ {
 				o := g.next(false)
 				if r.Intn(7) == 0 {
-					o = op{kind: []string{"psize", "plen"}[r.Intn(2)]}
+					o = op{kind: []string{"psize", "plen", "pget"}[r.Intn(3)]}
 					progs[i] = append(progs[i], o)
 					continue
 				}
@@ -572,7 +583,7 @@ func ConcRandom(t *tr.W, r *rand.Rand, n int) {
 		for k := range progs {
 			for j := 1 + r.Intn(4); j > 0; j-- {
 				if r.Intn(6) == 0 {
-					progs[k] = append(progs[k], op{kind: []string{"psize", "plen"}[r.Intn(2)]})
+					progs[k] = append(progs[k], op{kind: []string{"psize", "plen", "pget"}[r.Intn(3)]})
 					continue
 				}
 				progs[k] = append(progs[k], g.next(false))
@@ -721,6 +732,10 @@ func init() {
 		tr.MaxHangs = 6
 		r := tr.Rng(16)
 		b := tr.EnvInt("VERIF_BUDGET", 1)
+		if os.Getenv("VERIF_SEARCH") != "" {
+			// the search pass after a broken tie: three times the quick budget
+			thorough, b = false, 3
+		}
 		if thorough {
 			Sequential(t, r, b*tr.EnvInt("LRU_SEQ", 20000))
 			ConcExhaustive(t, r, b*tr.EnvInt("LRU_PROGS", 150), 4000)
